@@ -158,9 +158,31 @@ def run(ctx):
         ctx.check(ok, "C08.5", "at_recursion_limit", "len(question_stack) == capacity(question_stack)", "at_recursion_limit returns %s" % A.show(e), f.loc(b))
     f = prog.fn(C + "is_duplicate_question")
     r = A.Resolver(f)
+    c_ = A.Conds(f, r)
+    def q_equal(fc):
+        """an element of question_stack compared equal to the question"""
+        if fc[0] == "cmp" and fc[1] == "Eq":
+            a_, b_ = fc[2], fc[3]
+        elif fc[0] == "call" and fc[3] is True and len(fc[2]) == 2 and fc[1].endswith("::eq"):
+            a_, b_ = fc[2]
+        else:
+            return False
+        for x, y in ((a_, b_), (b_, a_)):
+            src = A.iter_elem_source(x)
+            if src is not None and A.path_str(src) == "param1.question_stack" and A.path_str(y) == "param2":
+                return True
+        return False
+    exhausted = lambda fc: fc[0] == "is" and fc[1] == "None" and A.peel(fc[2])[0] == "call" and A.peel(fc[2])[1].endswith("::next") \
+        and A.path_str(A.peel(A.peel(fc[2])[2][0])) == "param1.question_stack"
     for b, e in A.return_exprs(f, r):
-        ok = Call("contains", Path("param1.question_stack"), Path("param2"))(e)
-        ctx.check(ok, "C08.5", "is_duplicate_question", "question_stack.contains(question)", "is_duplicate_question returns %s" % A.show(e), f.loc(b))
+        pe = A.peel(e)
+        if pe[0] == "const" and pe[2] is True:
+            ok = c_.guarded(b, q_equal)[0]                     # `.iter().any(|q| q == question)` / a hand-written loop
+        elif pe[0] == "const" and pe[2] is False:
+            ok = c_.guarded(b, exhausted)[0] and A.never_after(f, c_.edges_where(q_equal), b)
+        else:
+            ok = Call("contains", Path("param1.question_stack"), Path("param2"))(e)
+        ctx.check(ok, "C08.5", "is_duplicate_question", "true exactly when question_stack holds the question (contains / any / loop)", "is_duplicate_question returns %s" % A.show(e), f.loc(b))
     f = prog.fn(C + "push_question")
     r = A.Resolver(f)
     ps = A.call_blocks(f, A.name_endswith("Vec::<T, A>::push"))
